@@ -121,7 +121,14 @@ def seq_gen_op(rng, handles):
         return {"op": "copy", "h": h}
     if kind == "roundtrip":
         return {"op": "roundtrip", "h": h, "via": rng.weighted([("deepcopy", 3), ("dill", 3), ("saveload", 1), ("pickle", 1)])}
-    return {"op": "view", "h": h, "k": rng.randint(0, nv - 1)}
+    return {"op": "view", "h": h, "k": _view_index(rng, nv)}
+
+
+def _view_index(rng, nv):
+    """mostly -nv .. nv-1 (Python indexing), sometimes just outside (must be rejected)"""
+    if rng.chance(0.2):
+        return rng.choice([nv, nv + 1, -nv - 1, 2 * nv])
+    return rng.randint(-nv, nv - 1)
 
 
 def seq_apply(ctx, handles, fam, op):
@@ -241,7 +248,7 @@ def rv_gen_op(rng, handles, case):
         return {"op": "copy", "h": h}
     if kind == "roundtrip":
         return {"op": "roundtrip", "h": h, "via": rng.weighted([("pickle", 3), ("deepcopy", 2), ("dill", 2), ("saveload", 1)])}
-    return {"op": "view", "h": h, "k": rng.randint(0, nv - 1)}
+    return {"op": "view", "h": h, "k": _view_index(rng, nv)}
 
 
 def rv_apply(ctx, handles, fam, op, case, db):
@@ -372,6 +379,13 @@ def other_case(ctx: Ctx, case: dict):
             # an operation that raises must still leave the other families alone (checked below)
             ret = None
         ctx.evaluations += 1
+        if op["op"] == "view":
+            N = before[tgt]["nv"]
+            if not (-N <= op["k"] < N) and len(handles) > nh:
+                ctx.fail("variant-index-out-of-range-accepted", snap,
+                         f"op #{i - 1} {op}: index {op['k']} on a {site} model with {N} variant(s) returned a model instead of raising IndexError")
+            elif (-N <= op["k"] < N) and len(handles) == nh:
+                ctx.fail("variant-view-wrong-variant", snap, f"op #{i - 1} {op}: an in-range index on a {site} model with {N} variant(s) was rejected")
         for k in range(nh):
             if before[k] is None:
                 continue
